@@ -180,8 +180,9 @@ static void do_call (ri_ctx *ri, frame *fr, MIR_insn_t insn) {
       if (pv.type == MIR_T_RBLK) args[i] = b; /* passed by address */
       else { /* passed by value: the callee sees a private copy */
         size_t sz = pv.size; uint8_t *cp = arena_alloc (ri, sz ? sz : 1, 1); if (!cp) return;
-        if (!check_read (ri, (uint8_t *) (uintptr_t) b.u.u, sz)) return;
         memcpy (cp, (void *) (uintptr_t) b.u.u, sz);
+        /* copying uninitialised bytes is harmless; the copy inherits which bytes are initialised */
+        if (in_arena (ri, (uint8_t *) (uintptr_t) b.u.u, sz)) memcpy (ri->shadow + (cp - ri->arena), ri->shadow + ((uint8_t *) (uintptr_t) b.u.u - ri->arena), sz);
         memset (&args[i], 0, sizeof args[i]); args[i].u.u = (uint64_t) (uintptr_t) cp;
       }
       continue;
